@@ -367,3 +367,96 @@ Definition c15_make_auth (toks : list (list N)) : list (list N) :=
   | [k] :: [] => if k =? 1 then [[0]] else [[1]; []; []]
   | _ => REJECT_TOK
   end.
+
+(* ---------------- C05 ---------------- *)
+From TT Require Import Model.TlsDemux.
+
+Fixpoint dec_names (fuel : nat) (b : list N) : list (list N) :=
+  match fuel with
+  | O => []
+  | S f => match b with
+           | [] => []
+           | l :: r => takeN l r :: dec_names f (dropN l r)
+           end
+  end.
+
+Fixpoint dec_alts (fuel : nat) (b : list N) : list (N * list N) :=
+  match fuel with
+  | O => []
+  | S f => match b with
+           | h :: l :: r => (h, takeN l r) :: dec_alts f (dropN l r)
+           | _ => []
+           end
+  end.
+
+Fixpoint mk_main (names : list (list N)) (alts : list (N * list N)) (idx : N) : list main_host :=
+  match names with
+  | [] => []
+  | n :: r =>
+    {| mh_name := n; mh_alts := map snd (filter (fun a => fst a =? idx) alts) |} :: mk_main r alts (idx + 1)
+  end.
+
+Definition c05_config (flags main alts rp ping speed : list N) : config :=
+  match flags with
+  | [h1; h2; h3; rpf] =>
+    {| c_main := mk_main (dec_names (length main) main) (dec_alts (length alts) alts) 0;
+       c_rp := dec_names (length rp) rp; c_ping := dec_names (length ping) ping;
+       c_speed := dec_names (length speed) speed;
+       c_h1 := h1 =? 1; c_h2 := h2 =? 1; c_h3 := h3 =? 1; c_rp_enabled := rpf =? 1 |}
+  | _ => {| c_main := []; c_rp := []; c_ping := []; c_speed := [];
+            c_h1 := false; c_h2 := false; c_h3 := false; c_rp_enabled := false |}
+  end.
+
+Definition chan_code (c : channel) : N :=
+  match c with ChTunnel => 0 | ChPing => 1 | ChSpeed => 2 | ChRevProxy => 3 end.
+
+Definition render_meta (r : option meta) : list (list N) :=
+  match r with
+  | None => [[0]]
+  | Some m => [[1; chan_code (m_channel m); proto_rank (m_proto m); m_host m;
+                match m_creds m with Some _ => 1 | None => 0 end];
+               match m_creds m with Some c => c | None => [] end]
+  end.
+
+Fixpoint c05_queries (fuel : nat) (c : config) (qs : list (list N)) : list (list N) :=
+  match fuel with
+  | O => []
+  | S f => match qs with
+           | alpn :: sni :: rest =>
+             render_meta (select c (dec_names (length alpn) alpn) sni) ++ c05_queries f c rest
+           | _ => []
+           end
+  end.
+
+Definition c05_select (toks : list (list N)) : list (list N) :=
+  match toks with
+  | flags :: main :: alts :: rp :: ping :: speed :: qs =>
+    let c := c05_config flags main alts rp ping speed in
+    if valid_hosts c then c05_queries (length qs) c qs else [[2]]
+  | _ => REJECT_TOK
+  end.
+
+Fixpoint c05_ops (fuel : nat) (flags : list N) (cur : config) (ops : list (list N)) : list (list N) :=
+  match fuel with
+  | O => []
+  | S f =>
+    match ops with
+    | [1] :: alpn :: sni :: rest =>
+      render_meta (select cur (dec_names (length alpn) alpn) sni) ++ c05_ops f flags cur rest
+    | [2] :: main :: alts :: rp :: ping :: speed :: rest =>
+      let c := c05_config flags main alts rp ping speed in
+      let '(nxt, _) := dstep cur (DReload c true) in
+      [3; if valid_hosts c then 1 else 0] :: c05_ops f flags nxt rest
+    | [2; _] :: main :: alts :: rp :: ping :: speed :: rest =>
+      (* unloadable certificate / duplicate names read from a hosts file: the reload fails *)
+      [3; 0] :: c05_ops f flags cur rest
+    | _ => []
+    end
+  end.
+
+Definition c05_history (toks : list (list N)) : list (list N) :=
+  match toks with
+  | flags :: main :: alts :: rp :: ping :: speed :: ops =>
+    c05_ops (length ops) flags (c05_config flags main alts rp ping speed) ops
+  | _ => REJECT_TOK
+  end.
